@@ -4,7 +4,7 @@ CONSTANTS
   Victims = {}
   Prog <- Pf1
   InitPoison = TRUE
-  Fix1 = FALSE
+  Fix1 = TRUE
   Fix2 = TRUE
 INVARIANTS RWExclusion NothingBad PopNeverEmpty GuardsBalance
 VIEW View
